@@ -153,19 +153,28 @@ def TS.idx (s : TS) (v : Nat) : Int := s.index[v]?.getD 0
 def TS.low (s : TS) (v : Nat) : Int := s.lowLink[v]?.getD 0
 def TS.on (s : TS) (v : Nat) : Bool := s.onStack[v]?.getD false
 
+/-- `t.lowLink[v] = x` -/
+def TS.setLow (s : TS) (v : Nat) (x : Int) : TS := { s with lowLink := s.lowLink.set v x }
+
+/-- the first five statements of `strongConnect` -/
+def TS.push (s : TS) (v : Nat) : TS :=
+  { s with index := s.index.set v s.curr, lowLink := s.lowLink.set v s.curr,
+           curr := s.curr + 1, stack := v :: s.stack, onStack := s.onStack.set v true }
+
 /-- loop body of `for _, w := range t.graph[v]` given the recursive call -/
 def scStep (rec : Nat → TS → TS) (v : Nat) (s : TS) (w : Nat) : TS :=
   if s.idx w = -1 then
     let s := rec w s
-    if s.low w < s.low v then { s with lowLink := s.lowLink.set v (s.low w) } else s
-  else if s.on w && s.idx w < s.low v then { s with lowLink := s.lowLink.set v (s.idx w) }
+    if s.low w < s.low v then s.setLow v (s.low w) else s
+  else if s.on w && s.idx w < s.low v then s.setLow v (s.idx w)
   else s
 
 def clearAll (on : List Bool) : List Nat → List Bool
   | [] => on
   | v :: vs => clearAll (on.set v false) vs
 
-/-- the tail of `strongConnect`: report and pop the component when `v` is a root -/
+/-- the tail of `strongConnect`: report and pop the component when `v` is a root
+(`t.stack[base:]` is the top `len(stack) - base` entries, in push order) -/
 def scPop (base v : Nat) (s : TS) : TS :=
   if s.low v = s.idx v then
     let k := s.stack.length - base
@@ -177,11 +186,8 @@ def scPop (base v : Nat) (s : TS) : TS :=
 def strongConnect (g : Graph) : Nat → Nat → TS → TS
   | 0, _, s => s
   | fuel + 1, v, s =>
-    let base := s.stack.length
-    let s1 : TS := { s with index := s.index.set v s.curr, lowLink := s.lowLink.set v s.curr,
-                            curr := s.curr + 1, stack := v :: s.stack, onStack := s.onStack.set v true }
-    let s2 := (succs g v).foldl (scStep (strongConnect g fuel) v) s1
-    scPop base v s2
+    let s2 := (succs g v).foldl (scStep (strongConnect g fuel) v) (s.push v)
+    scPop s.stack.length v s2
 
 def tarjanInit (n : Nat) : TS :=
   ⟨[], List.replicate n (-1), List.replicate n 0, List.replicate n false, 0, []⟩
